@@ -590,6 +590,14 @@ func (p *P) parserRun(r *core.Result, src *tape.Source, ctl *pool.Ctl, trace boo
 		}
 		switch k {
 		case 8, 9:
+			if src.Intn(5, "c08.cleardialect") == 4 {
+				// the holder puts its parser back on the default dialect
+				ps.ApplyOptions(parser.WithDialect(""))
+				cfg.Dialect = ""
+				kinds += "ApplyOptions(dialect=\"\") "
+				r.Tracef(trace, `p.ApplyOptions(WithDialect(""))`)
+				continue
+			}
 			o := pickOpts()
 			ps.ApplyOptions(o.Opts()...)
 			if o.Strict {
